@@ -6,6 +6,9 @@ ASSUMPTIONS = [
     "parse_variable_instantiation for the constant 1'b0 (tokenizer stubbed), called while connecting module A and then module B, "
     "returns a net owned by A and then a net owned by B (constants never leak between modules), on two symbolic definitions whose "
     "existing nets may or may not already be the constant net",
+    "(3) parse_cable_concatenation for { P1 , P2 } (tokens and parse_variable_instantiation stubbed: each piece an arbitrary "
+    "identifier / bit-select / part-select of either of two 2-bit cables with symbolic base index): the wires returned are P1's bits "
+    "most significant first, then P2's bits most significant first (list.sort with a key is encoded as a stable rank computation)",
     "outside: module-level glue, header/body port merging, late growth of cables (create_or_update_cable), parameters, attributes, "
     "black-box election, whole files",
 ]
@@ -13,4 +16,6 @@ ASSUMPTIONS = [
 
 def jobs(tier):
     return [dict(name="C06/reader-kernels", engine="E1/symheap", module="vf.e1.verilog_jobs",
-                 func="reader_kernels_job", timeout=1500, args=dict(tier=tier))]
+                 func="reader_kernels_job", timeout=1500, args=dict(tier=tier)),
+            dict(name="C06/concat-read", engine="E1/symheap", module="vf.e1.verilog_jobs",
+                 func="concat_read_job", timeout=1500, args=dict(tier=tier))]
